@@ -14,6 +14,10 @@ package main
 //	               (global in-flight capacity, per-zone quota), enforce-mode work
 //	               budget: a DIFFERENT client asking afterwards reaches the
 //	               authorities, gets no EDE 13, and nothing was recorded;
+//	               the same shedding striking a REQUIRED SUB-LOOKUP (the address
+//	               of the only, glue-less name server of a delegation, whose
+//	               host lives in a zone at its in-flight quota): nothing may be
+//	               recorded for the delegated zone, other clients resolve it;
 //	kill switch    rfc9520=false: every query reaches the authorities, nothing
 //	               is recorded.
 //
@@ -47,7 +51,7 @@ import (
 )
 
 type fullSpec struct {
-	Scenario string `json:"scenario"` // zones | dead | client | shed-global | shed-zone | enforce | killswitch | enrich
+	Scenario string `json:"scenario"` // zones | dead | client | shed-global | shed-zone | enforce | killswitch | enrich | shed-nsaddr
 	MinMS    int64  `json:"min_ms"`   // 0 = default
 	MaxMS    int64  `json:"max_ms"`
 	Half     string `json:"half"` // behaviour of the failing server of the partly-alive zone: refused | servfail | drop
@@ -171,6 +175,24 @@ func newFullRun(r *vlib.Run, c fullCase) (*fullRun, error) {
 		}
 		f.zones["gl.test."] = &fullZone{apex: "gl.test.", servers: []*authsim.Server{g1}, zone: z, mode: "honest"}
 	}
+	if c.Spec.Scenario == "shed-nsaddr" {
+		// gl1.test., gl2.test.: each delegated WITHOUT glue to a single name
+		// server whose host name lives in ok.test. — a healthy zone reachable
+		// only through a required NS-address sub-lookup into ok.test.
+		for _, n := range []string{"1", "2"} {
+			apex, host := "gl"+n+".test.", "nsgl"+n+".ok.test."
+			gs := u.AddServer("gl" + n)
+			z := u.AddZone(zm.Spec{Apex: apex, NSHosts: []string{host}}, gs)
+			u.Delegate(tld, z, authsim.DelegOpts{NS: []zm.NSHost{{Name: host}}})
+			for _, a := range gs.Addrs {
+				ok.zone.AddAddr(host, net.IP(a.AsSlice()), 300)
+			}
+			for i := 0; i < 4; i++ {
+				z.AddMarked(fmt.Sprintf("h%d.%s", i, apex), dns.TypeA, 300)
+			}
+			f.zones[apex] = &fullZone{apex: apex, servers: []*authsim.Server{gs}, zone: z, mode: "honest"}
+		}
+	}
 	if c.Spec.Scenario == "enrich" {
 		// v4-only glue: the resolver will try to learn the NS hosts' AAAA in the
 		// background (optional enrichment), and that lookup fails at every server
@@ -201,7 +223,7 @@ func newFullRun(r *vlib.Run, c fullCase) (*fullRun, error) {
 		switch c.Spec.Scenario {
 		case "shed-global":
 			cfg.MaxConcurrentQueries = 6
-		case "shed-zone":
+		case "shed-zone", "shed-nsaddr":
 			cfg.MaxConcurrentQueries = 256 // per-zone quota max(256/16,16) = 16
 		case "enforce":
 			cfg.RecursionFirewall.Mode = config.RecursionFirewallModeEnforce
@@ -556,6 +578,8 @@ func (f *fullRun) checkState(idx int, tag string) {
 			switch {
 			case f.tainted[name] || f.taintedAbove(name):
 				r.Count("full_state_skipped_tainted", 1)
+			case f.zlocals[name] == "shed-ns-address":
+				r.Violation("local/shed-ns-address/zone-recorded", "full pipeline: load shedding of a required NS-address sub-lookup (the name server's host zone was at its in-flight quota) became a shared zone failure for the healthy delegated zone: "+desc, f.replay())
 			case f.zlocals[name] != "":
 				r.Violation("local/"+f.zlocals[name]+"/recorded", "full pipeline: a failure of "+f.zlocals[name]+" work became a shared zone failure: "+desc, f.replay())
 			case f.partly[name]:
@@ -954,6 +978,138 @@ func (f *fullRun) scenarioShed(zoneQuota bool) {
 	}
 }
 
+// scenarioShedNSAddr: load shedding that strikes a REQUIRED SUB-LOOKUP of the
+// victim's resolution instead of the victim's own lookup. glN.test. is healthy
+// and delegated without glue to nsglN.ok.test.; while the victim needs that
+// host's address, ok.test. is at its per-zone in-flight quota (16 lookups
+// parked at a gated authority), so the address lookup is shed. That is load,
+// not a fact about glN.test.: once the load is gone a DIFFERENT client must
+// find no failure state for glN.test. and must reach its authorities.
+//
+// "Struck" is established from observations, not timing: the quota was full
+// before the victim started and still full after it returned (the gate is
+// released only afterwards), the victim fetched the referral (a packet for a
+// name at/below glN.test. reached the tld server), no packet for the NS host
+// left the resolver, and the victim got SERVFAIL.
+func (f *fullRun) scenarioShedNSAddr() {
+	f.warm()
+	f.Q("warm", f.client(), "h1.ok.test.", dns.TypeA, false, qmods{})
+	ok := f.zones["ok.test."]
+	const hold = 16
+	const cause = "shed-ns-address"
+	for _, n := range []string{"1", "2"} {
+		apex, host := "gl"+n+".test.", "nsgl"+n+".ok.test."
+		g := authsim.NewGate()
+		ok.servers[0].ClearScript(false)
+		var held []string
+		for i := 0; i < hold; i++ {
+			hn := f.fresh("ok.test.")
+			held = append(held, hn)
+			ok.servers[0].On(hn, 0, authsim.Honest().Gated(g))
+		}
+		results := make(chan int, hold)
+		for _, hn := range held {
+			hn := hn
+			cl := f.client()
+			go func() {
+				q := new(dns.Msg)
+				q.SetQuestion(hn, dns.TypeA)
+				q.SetEdns0(1232, false)
+				m := f.rs.Query(cl, q)
+				rc := -1
+				if m != nil {
+					rc = m.Rcode
+				}
+				results <- rc
+			}()
+		}
+		slots := func() int {
+			_, resolution, _, _ := f.rs.Handler.VerifSlots()
+			return resolution
+		}
+		formed := false
+		deadline := time.Now().Add(10 * time.Second)
+		for time.Now().Before(deadline) {
+			if slots() >= hold && g.Waiting() >= hold {
+				formed = true
+				break
+			}
+			time.Sleep(500 * time.Microsecond)
+		}
+		victim := "h0." + apex
+		struck := false
+		if formed {
+			f.r.Count("full_shed_nsaddr_barriers_formed", 1)
+			// everything the shed sub-lookup could (wrongly) leave behind
+			f.zlocals[apex] = cause
+			for _, cd := range []bool{false, true} {
+				f.locals[f.key(host, dns.TypeA, cd)] = cause
+				f.locals[f.key(host, dns.TypeAAAA, cd)] = cause
+			}
+			from := f.u.Log.Len()
+			out := f.qNoQuiesce("local-"+cause, f.client(), victim, dns.TypeA, cause)
+			referral, hostPackets := 0, 0
+			for _, p := range f.u.Log.Since(from) {
+				if dns.IsSubDomain(apex, p.QNameL) && p.Server == "tld" {
+					referral++
+				}
+				if p.QNameL == host {
+					hostPackets++
+				}
+			}
+			stillFull := slots() >= hold && g.Waiting() >= hold
+			struck = stillFull && referral > 0 && hostPackets == 0 && out.HasReply && out.Rcode == dns.RcodeServerFailure
+			if struck {
+				f.r.Count("full_shed_nsaddr_struck", 1)
+				f.c.Ops[len(f.c.Ops)-1].Got += fmt.Sprintf(" referral_packets=%d ns_host_packets=%d quota_full_throughout=%v", referral, hostPackets, stillFull)
+			} else {
+				// answered, or failed for another reason: nothing request-local happened
+				delete(f.m.local, f.key(victim, dns.TypeA, false))
+				delete(f.locals, f.key(victim, dns.TypeA, false))
+				delete(f.zlocals, apex)
+				f.r.Count("full_shed_nsaddr_victim_not_struck", 1)
+			}
+		} else {
+			f.r.Count("full_shed_nsaddr_barrier_not_formed", 1)
+		}
+		g.Release()
+		for range held {
+			<-results
+		}
+		ok.servers[0].ClearScript(false)
+		if !f.rs.Quiesce(15 * time.Second) {
+			f.r.Inconclusive(fmt.Sprintf("full case %d: pipeline did not quiesce after the NS-address shed round", f.c.Index))
+			f.dead = true
+			return
+		}
+		if !struck {
+			continue
+		}
+		// white box: nothing about glN.test. (zone or question) may be retained
+		f.checkState(len(f.c.Ops)-1, "after-shed-ns-address")
+		zoneState := false
+		for _, e := range f.rs.Cache().VerifC13Failures() {
+			if e.Kind == "zone" && canon(e.Name) == apex {
+				zoneState = true
+			}
+		}
+		if !zoneState {
+			f.r.Count("full_shed_nsaddr_no_zone_state", 1)
+		}
+		// black box: other clients, the load is gone — a sibling name first (only
+		// zone-wide state could cover it), then the victim's own question
+		sib := "h1." + apex
+		f.m.local[f.key(sib, dns.TypeA, false)] = cause
+		o1 := f.Q("local-followup-sibling", f.client(), sib, dns.TypeA, false, qmods{})
+		o2 := f.Q("local-followup", f.client(), victim, dns.TypeA, false, qmods{})
+		for _, o := range []fout{o1, o2} {
+			if o.Packets > 0 && o.HasReply && o.Rcode == dns.RcodeSuccess && !o.EDE13 {
+				f.r.Count("full_shed_nsaddr_followup_resolved", 1)
+			}
+		}
+	}
+}
+
 // qNoQuiesce serves a query while other requests are deliberately parked; it
 // is judged only for what it returns (the follow-up carries the verdict).
 func (f *fullRun) qNoQuiesce(tag, client, name string, qtype uint16, cause string) fout {
@@ -1100,6 +1256,8 @@ func runFullCase(r *vlib.Run, c fullCase) {
 		f.scenarioKill()
 	case "enrich":
 		f.scenarioEnrich()
+	case "shed-nsaddr":
+		f.scenarioShedNSAddr()
 	}
 	if r.ReplayCase() != nil {
 		for _, o := range f.c.Ops {
@@ -1117,13 +1275,13 @@ var fullBounds = [][2]int64{{0, 0}, {1000, 4000}, {2000, 0}, {1000, 1000}, {3000
 func fullSpecFor(r *vlib.Run, i int) fullSpec {
 	rng := r.RandN("full", i)
 	// the scenario mix is a fixed function of the index
-	scen := []string{"zones", "client", "shed-global", "shed-zone", "enforce", "killswitch", "zones", "dead", "enrich"}[i%9]
+	scen := []string{"zones", "client", "shed-global", "shed-zone", "enforce", "killswitch", "zones", "dead", "enrich", "shed-nsaddr"}[i%10]
 	b := fullBounds[rng.IntN(len(fullBounds))]
 	return fullSpec{Scenario: scen, MinMS: b[0], MaxMS: b[1], Half: []string{"refused", "servfail", "drop"}[rng.IntN(3)], Seed: rng.Uint64()}
 }
 
 func runFullChild(r *vlib.Run) {
-	n := r.N(9, 360)
+	n := r.N(10, 400)
 	for i := 0; i < n; i++ {
 		runFullCase(r, fullCase{Kind: "full", Index: i, Spec: fullSpecFor(r, i)})
 		r.Progress("full case %d/%d", i+1, n)
